@@ -257,6 +257,11 @@ def directed_scripts(variant):
     out.append(("dir_site9_remove_during_sink_dtor", [
         "cfg grace=0 soft=4 hard=8 tcap=2", "sink 0 lvl=0", "sink 1 lvl=0", "logger 0 sinks=0 lvl=0", "logger 1 sinks=1 lvl=0", "start",
         "T 1 start", "L 1 0 4 10", "P", "P", "DS 0", "RL 1 0", "P @9.1=L_1_1_4_10,RL_1_1", "P", "P", "P", "Q", "X"]))
+    # the same window with a thread that has never logged before: its context registers inside the clean-up, so the
+    # per-logger emptiness check must also refresh the list of contexts it looks at
+    out.append(("dir_site9_new_thread_during_sink_dtor", [
+        "cfg grace=0 soft=4 hard=8 tcap=2", "sink 0 lvl=0", "sink 1 lvl=0", "logger 0 sinks=0 lvl=0", "logger 1 sinks=1 lvl=0", "start",
+        "T 1 start", "L 1 0 4 10", "P", "P", "DS 0", "RL 1 0", "P @9.1=T_2_start,L_2_1_4_10,RL_2_1", "P", "P", "P", "Q", "X"]))
     out.append(("dir_site9_three_loggers", [
         "cfg grace=0 soft=4 hard=8 tcap=2", "sink 0 lvl=0", "sink 1 lvl=0", "sink 2 lvl=0",
         "logger 0 sinks=0,1 lvl=0", "logger 1 sinks=2 lvl=0", "logger 2 sinks=2 lvl=0", "start",
